@@ -409,45 +409,11 @@ func registerIntercepts(g *Engine) {
 		return val
 	}
 	ic["verif:verifSettle"] = func(e *Exec, fn *ssa.Function, a []Value) Value { return nil }
-	// verifRunGoroutines: give every queued goroutine a turn, to completion or
-	// until it blocks; a blocked goroutine stays queued and is restarted from its
-	// beginning at the next turn (sound for bodies whose first action is the
-	// blocking wait, or whose loop is restartable — stated per harness).
+	// verifRunGoroutines: let the spawned coroutines run until all of them are
+	// parked or finished (see coro.go).
 	ic["verif:verifRunGoroutines"] = func(e *Exec, fn *ssa.Function, a []Value) Value {
-		for round := 0; round < 4; round++ {
-			q := e.goQueue
-			e.goQueue = nil
-			progressed := false
-			for _, th := range q {
-				th := th
-				blocked := func() (b bool) {
-					saved, depth := e.curFrame, e.depth
-					steps := e.steps
-					defer func() {
-						if r := recover(); r != nil {
-							if pe, ok := r.(pathEnd); ok && pe.kind == EndDeadlock {
-								e.curFrame, e.depth = saved, depth
-								b = true
-								if e.steps-steps > 200 {
-									progressed = true
-								}
-								return
-							}
-							panic(r)
-						}
-					}()
-					th()
-					return false
-				}()
-				if blocked {
-					e.goQueue = append(e.goQueue, th)
-				} else {
-					progressed = true
-				}
-			}
-			if !progressed {
-				break
-			}
+		if e.curCoro == nil {
+			e.schedule()
 		}
 		return nil
 	}
@@ -455,7 +421,7 @@ func registerIntercepts(g *Engine) {
 	// ----- sync -----
 	nop := func(e *Exec, fn *ssa.Function, a []Value) Value { return nil }
 	for _, n := range []string{"(*sync.Mutex).Lock", "(*sync.Mutex).Unlock", "(*sync.RWMutex).Lock", "(*sync.RWMutex).Unlock",
-		"(*sync.RWMutex).RLock", "(*sync.RWMutex).RUnlock", "(*sync.WaitGroup).Add", "(*sync.WaitGroup).Done", "(*sync.WaitGroup).Wait",
+		"(*sync.RWMutex).RLock", "(*sync.RWMutex).RUnlock",
 		"(*sync.Cond).Broadcast", "(*sync.Cond).Signal", "runtime.KeepAlive", "runtime.SetFinalizer",
 		"internal/race.Acquire", "internal/race.Release", "internal/race.ReleaseMerge", "internal/race.Disable", "internal/race.Enable",
 		"internal/race.Read", "internal/race.Write", "internal/race.ReadRange", "internal/race.WriteRange"} {
@@ -464,9 +430,43 @@ func registerIntercepts(g *Engine) {
 	// a spin-wait (Gosched in a retry loop) waits for another goroutine: in the
 	// sequential model that is a blocked operation
 	ic["runtime.Gosched"] = func(e *Exec, fn *ssa.Function, a []Value) Value {
+		if e.yield() {
+			return nil // somebody else ran: the caller's retry loop re-checks
+		}
 		panic(pathEnd{EndDeadlock, "spin-wait (runtime.Gosched)" + e.where()})
 	}
 	ic["(*sync.Mutex).TryLock"] = func(e *Exec, fn *ssa.Function, a []Value) Value { return e.tb.True() }
+	// WaitGroup: a counter; Wait blocks (yields) until it is zero. Under the
+	// "skip" goroutine policy the counted goroutines never run, so Wait returns.
+	wgCount := func(e *Exec, p Value) (*Loc, int) {
+		l := e.derefLoc(p.(PtrVal))
+		n, _ := e.hidden[l].(int)
+		return l, n
+	}
+	ic["(*sync.WaitGroup).Add"] = func(e *Exec, fn *ssa.Function, a []Value) Value {
+		l, n := wgCount(e, a[0])
+		e.hidden[l] = n + e.concreteInt(a[1])
+		return nil
+	}
+	ic["(*sync.WaitGroup).Done"] = func(e *Exec, fn *ssa.Function, a []Value) Value {
+		l, n := wgCount(e, a[0])
+		e.hidden[l] = n - 1
+		return nil
+	}
+	ic["(*sync.WaitGroup).Wait"] = func(e *Exec, fn *ssa.Function, a []Value) Value {
+		if e.cfg.GoPolicy != "queue" {
+			return nil
+		}
+		for {
+			_, n := wgCount(e, a[0])
+			if n <= 0 {
+				return nil
+			}
+			if !e.yield() {
+				panic(pathEnd{EndDeadlock, "WaitGroup.Wait would block" + e.where()})
+			}
+		}
+	}
 	ic["(*sync.WaitGroup).Go"] = func(e *Exec, fn *ssa.Function, a []Value) Value {
 		return e.callFuncVal(a[1].(FuncVal), nil, nil)
 	}
